@@ -62,8 +62,13 @@ def main():
             add_only=True,
         ),
         engines=[
-            dict(name="mq-seq", path="harness/src/seq.rs", serves_properties=["C09", "C05", "C11", "C13", "C15", "C03"], kind_free_text="single-threaded differential execution against the reference model + payload ledger"),
-            dict(name="mq-conc", path="harness/src/conc.rs", serves_properties=["C01", "C02", "C03", "C04", "C05", "C06", "C07", "C10", "C11", "C12", "C15"], kind_free_text="concurrent scenario engine: boundary history, stall injection, quiescent probe, offline checkers"),
+            dict(name="mq-seq", path="harness/src/seq.rs", serves_properties=["C09", "C05", "C11", "C13", "C15", "C03", "C17"], kind_free_text="single-threaded differential execution against the reference model + payload ledger over all teardown orders"),
+            dict(name="mq-conc", path="harness/src/conc.rs", serves_properties=["C01", "C02", "C03", "C04", "C05", "C06", "C07", "C10", "C11", "C12", "C13", "C15"], kind_free_text="concurrent scenario engine: boundary history, stall injection at hook sites, quiescent probe, offline checkers"),
+            dict(name="mq-wake", path="harness/src/wake.rs", serves_properties=["C08"], kind_free_text="blocked consumers observed through a spying Wait strategy; frozen-state wake predicate"),
+            dict(name="mq-fut", path="harness/src/futx.rs", serves_properties=["C14", "C13", "C15"], kind_free_text="harness-as-executor futures scenarios with probe-poll at quiescence"),
+            dict(name="mq-churn", path="harness/src/churn.rs", serves_properties=["C16", "C17"], kind_free_text="reclamation churn under AddressSanitizer/Miri; counting allocator accounting"),
+            dict(name="mq-solo", path="harness/src/solo.rs", serves_properties=["C18"], kind_free_text="freeze injection: one try operation runs alone, own steps counted"),
+            dict(name="mq-sendsync", path="harness/src/sendsync.rs", serves_properties=["C19"], kind_free_text="run-time table of the compiler's Send/Sync answers"),
         ],
         checks=checks,
         notes="All checks are runtime monitors over executions of the real crate (native threads with hook-point injection, Miri, AddressSanitizer). known_findings.json lists recorded genuine defects and the fix: commits.",
